@@ -169,3 +169,40 @@ Example C02_final_state_premises :
   (iopcode add2 = 156 /\ reg_word add2 0 1 /\ reg_word add2 1 2)
   /\ (std_word_arm (iopcode xor3) = Some (Z.lxor, 2) /\ reg_word xor3 0 1 /\ reg_word xor3 1 2 /\ reg_word xor3 2 3).
 Proof. cbv zeta. unfold reg_word. cbn. repeat split. Qed.
+
+(* every size: AND / OR / XOR / MUL (24 opcodes) with a register destination and side-effect-free source reads:
+   N is the sign bit at the operand size, Z says the result truncated to the operand size is zero, C = 0, and V
+   says the result does not fit the operand size *)
+Theorem C02_logic_mul_final_state_every_size :
+  forall ir m f dst r a b,
+    std_arm (iopcode ir) = Some (f, dst) -> read_op ir 0 m = Ok a m -> read_op ir 1 m = Ok b m ->
+    omode (get_op ir dst) = MRegister -> oreg (get_op ir dst) = Some r -> 0 <= r <= 10 ->
+    otype (get_op ir dst) <> DNone ->
+    let t := otype (get_op ir dst) in
+    exists m', exec ir m = Ok (ilen ir) m'
+      /\ word_outcome m m' r (f a b) (Z.testbit (f a b) (sign_bit t)) (trunc_to t (f a b) =? 0) (too_big t (f a b)) false.
+Proof. exact logic_mul_sized_final. Qed.
+Print Assumptions C02_logic_mul_final_state_every_size.
+
+(* the add / subtract helpers at halfword and byte size *)
+Theorem C02_add_sub_final_state_small_sizes :
+  forall ir a b dst r m,
+    omode (get_op ir dst) = MRegister -> oreg (get_op ir dst) = Some r -> 0 <= r <= 10 ->
+    let t := otype (get_op ir dst) in
+    (oetype (get_op ir dst) = None -> (t = DHalf \/ t = DByte) ->
+       let res := w32 (a + b) in
+       let top := if dtype_eqb t DHalf then 15 else 7 in
+       exists m', add_op ir a b dst m = Ok tt m'
+         /\ word_outcome m m' r res (Z.testbit res top) (trunc_to t res =? 0)
+              (Z.testbit (Z.land (Z.lxor a (not32 b)) (Z.lxor a res)) top)
+              (a + b >? (if dtype_eqb t DHalf then 65535 else 255)))
+    /\ (t <> DNone ->
+       let res := w32 (a - b) in
+       exists m', sub_op ir a b dst m = Ok tt m'
+         /\ word_outcome m m' r res (Z.testbit res (sign_bit t)) (trunc_to t res =? 0) (too_big t res) (a <? b)).
+Proof.
+  intros ir a b dst r m Hm Hr Hr10 t. split.
+  - intros He Ht. exact (add_op_sized_final ir a b dst r m Hm Hr Hr10 He Ht).
+  - intros Ht. exact (sub_op_sized_final ir a b dst r m Hm Hr Hr10 Ht).
+Qed.
+Print Assumptions C02_add_sub_final_state_small_sizes.
